@@ -19,7 +19,7 @@ func init() {
 		Replay: replay,
 		Rule: "E1 over placements x prefix usages: modules a (prefix table: p->n1, q->n2) and b (p->n2, r->n1, a->a) are chosen so that the same prefix means different namespaces in the two modules and each module knows a prefix the other does not; a must, a when or a leafref path is placed directly in a, in a grouping of a used in a, in a grouping of a used from b, in an augment written in b into a's tree, in a typedef of a used from b (leafref), in a refine/augment inside b's uses of a's grouping, as a when on a uses of a foreign / local grouping or on an augment that contains a foreign uses, and in a deviation written in b; the expression is one of 12 (prefix p / q / r / unknown, unprefixed, two prefixes, syntactically invalid forms from C04's reject set). " +
 			"Expected verdict: compiles iff the expression is syntactically valid and every prefix is known in the module where the statement is textually written; the error must name that module's file. On success every Name-Push of the compiled machine must carry the namespace the textual module's import table gives (unprefixed: the namespace of the module the node ends up in) and GetExpr() must be the source text. Non-trivial = every case.",
-		Bound: map[string]string{"quick": "9 placements x 4 statement kinds (must, a second must after a valid one, when, leafref path) x 12 expressions; 4 placements of a when written on a uses / augment x 12 expressions; 4 placements x 9 kind pairs x 5x4 expression pairs x 2 orders with a second statement written in b itself", "thorough": "same"},
+		Bound: map[string]string{"quick": "10 placements x 4 statement kinds (must, a second must after a valid one, when, leafref path) x 12 expressions; 4 placements of a when written on a uses / augment x 12 expressions; 4 placements x 9 kind pairs x 5x4 expression pairs x 2 orders with a second statement written in b itself", "thorough": "same"},
 		Assumptions: []string{"for statements added by a deviation the namespace of unprefixed names is UNSPECIFIED (the node stays in the target module, the text is in the deviating module)"},
 	})
 }
@@ -123,6 +123,11 @@ func placements() []placement {
 		{"when-on-uses-inside-grouping-used-from-b", "a", "urn:b", func(s string) (string, string) {
 			return "grouping inner { container gc { leaf k { type string; } } } grouping outer { container o { uses inner { " + s + " } } }", "uses a:outer;"
 		}, "/o/gc", false},
+		// module a includes a submodule that binds the same prefixes to the OTHER modules: a statement
+		// written in a itself still resolves through a's own imports
+		{"direct-with-submodule-rebinding-prefixes", "a", "urn:a", func(s string) (string, string) {
+			return "CLASH:container c { leaf k { type string; } " + s + " }", ""
+		}, "/c", false},
 		{"submodule-of-a", "a", "urn:a", func(s string) (string, string) {
 			return "SUB:container c { leaf k { type string; } " + s + " }", ""
 		}, "/c", false},
@@ -200,6 +205,11 @@ func build(cr caseRec) (mods map[string]string, pl placement, e expr, ok bool) {
 		mods["s"] = "submodule s { belongs-to a { prefix a; } import n1 { prefix p; } import n2 { prefix q; } " + abody[4:] + " }"
 		abody = ""
 		ahdr += " include s;"
+	}
+	if strings.HasPrefix(abody, "CLASH:") {
+		abody = abody[6:]
+		ahdr += " include s2;"
+		mods["s2"] = "submodule s2 { belongs-to a { prefix a; } import n2 { prefix p; } import n1 { prefix q; } container insub { leaf y { type string; must \"p:x = 'v'\"; } } }"
 	}
 	mods["a"] = ahdr + " " + abody + " }"
 	mods["b"] = "module b { namespace \"urn:b\"; prefix b; import a { prefix a; } import n2 { prefix p; } import n1 { prefix r; } " + bbody + " }"
